@@ -324,7 +324,10 @@ pub fn worker_main(def: &PropDef, tier: Tier, shard: u64, nshards: u64, seed: u6
         progress,
         start: Instant::now(),
     };
-    (def.run)(&mut ctx);
+    if let Err(p) = catch(|| (def.run)(&mut ctx)) {
+        eprintln!("harness panic outside a guarded subject call: {p}");
+        std::process::exit(101);
+    }
     if describe.is_some() {
         println!("null");
         return;
@@ -660,6 +663,10 @@ pub fn parent_main(def: &PropDef, tier: Tier) -> i32 {
             return 2;
         }
         n_viol += 1;
+        if n_viol > 12 {
+            // every class is counted; only the first dozen get their own replay artefact and line
+            continue;
+        }
         let path = fp_file(def.id, fp);
         let rep = json!({"property": def.id, "fingerprint": fp, "clause": c.clause, "cases_in_run": c.count,
             "case": case, "detail": detail,
@@ -701,14 +708,21 @@ pub fn parent_main(def: &PropDef, tier: Tier) -> i32 {
         println!("MACHINERY-ERROR: cannot write evidence: {e}");
         return 2;
     }
+    if n_viol > 12 {
+        lines.push(format!("  ... and {} more violation classes (see evidence)", n_viol - 12));
+    }
     println!(
         "{} {}: evaluations={} distinct_nontrivial={} states={} transitions={} outcomes={} exhaustive={} wall={:.1}s",
         def.id, tier.name(), evals, distinct, states, transitions, outcomes.len(), !capped, wall
     );
-    for l in &lines {
-        println!("{l}");
+    {
+        let so = std::io::stdout();
+        let mut so = so.lock();
+        for l in &lines {
+            let _ = writeln!(so, "{l}");
+        }
+        let _ = so.flush();
     }
-    let _ = std::io::stdout().flush();
     let _ = std::fs::remove_dir_all(&dir);
     if evals == 0 {
         println!("MACHINERY-ERROR: property={} explored nothing", def.id);
